@@ -55,7 +55,8 @@ import (
 
 type hmLine struct{ k, v string }
 
-var hmNamesHTTP = []string{"x-a", "X-A", "x-b", "fOo-bAr", "host", "Content-Type", "user-agent", "cookie", "server", "set-cookie"}
+// the last two: odd but legal tokens on which fasthttp's and net/textproto's key normalisation differ / do nothing special
+var hmNamesHTTP = []string{"x-a", "X-A", "x-b", "fOo-bAr", "host", "Content-Type", "user-agent", "cookie", "server", "set-cookie", "x--y", "foo_bar"}
 var hmNamesBolt = []string{"service", "Service", "x-a", "X-A", "k"}
 var hmValues = []string{"1", "2", "v", "", "a,b", "q"}
 var hmCookieValues = []string{"a=1", "b=2; c=3", "zzz", "a=9"}
